@@ -283,26 +283,28 @@ Proof.
     dasy s t Ea. dlist todo.
     apply (mu_lt g s _ 1); [|lia|cbn -[Nat.sub]; lia].
     set (s1 := set_fin (set_trace (set_ts s (upd (ts s) t dep_failed_set)) (OEnd t RDepFailed :: trace s)) (upd (fin s) t true)).
-    assert (Hs : sumn (g_n g) (tp g (set_asy s1 (upd (asy s1) t AFinishing))) + 1 <= sumn (g_n g) (tp g s)).
-    { apply (tp_after_asy g s s1 _ t AFinishing); auto.
+    match goal with |- sumn _ (tp g ?X) + _ + _ <= _ => set (s2 := X) end.
+    assert (Hs : sumn (g_n g) (tp g s2) + 1 <= sumn (g_n g) (tp g s)).
+    { apply (tp_after_asy g s s1 s2 t AFinishing); auto.
       - intros x. rewrite !tp_eq. unfold s1. cbn. unfold upd. destruct (Nat.eqb x t); cbn; unfold spot; cbn; lia.
       - unfold s1. cbn. rewrite upd_same. unfold spot. cbn. lia.
       - rewrite Ea. cbn. lia. }
-    assert (lw (set_asy s1 (upd (asy s1) t AFinishing)) = lw s) by reflexivity.
-    change (asy s) with (asy s1). lia.
+    assert (lw s2 = lw s) by reflexivity.
+    lia.
   - (* LActivatePending *)
     dasy s t Ea. dlist todo.
     assert (Hts : ts s t = Active) by (destruct (HJ t) as (_ & HB' & _); apply HB'; rewrite Ea; reflexivity).
     rewrite Hts. cbn.
     apply (mu_lt g s _ 2); [|lia|cbn -[Nat.sub]; lia].
     set (s1 := set_sendq (set_numPending (set_ts s (upd (ts s) t Pending)) (numPending s + 1)%Z) (t :: sendq s)).
-    assert (Hs : sumn (g_n g) (tp g (set_asy s1 (upd (asy s1) t AFinishing))) + 8 <= sumn (g_n g) (tp g s)).
-    { apply (tp_after_asy g s s1 _ t AFinishing); auto.
+    match goal with |- sumn _ (tp g ?X) + _ + _ <= _ => set (s2 := X) end.
+    assert (Hs : sumn (g_n g) (tp g s2) + 8 <= sumn (g_n g) (tp g s)).
+    { apply (tp_after_asy g s s1 s2 t AFinishing); auto.
       - intros x. rewrite !tp_eq. unfold s1. cbn. unfold upd. destruct (Nat.eqb x t); cbn; unfold spot; cbn; lia.
       - unfold s1. cbn. rewrite upd_same. unfold spot. cbn. lia.
       - rewrite Ea. cbn. lia. }
-    assert (lw (set_asy s1 (upd (asy s1) t AFinishing)) = lw s + 6) by (unfold lw, s1; cbn; lia).
-    change (asy s) with (asy s1). lia.
+    assert (lw s2 = lw s + 6) by (unfold lw, s2; cbn; lia).
+    lia.
   - (* LAsyncDone *)
     dasy s t Ea.
     apply (mu_lt g s _ 1); [|lia|autorewrite with proj; cbn -[Nat.sub]; lia].
